@@ -1,1 +1,180 @@
-import EventppVerif.Q.Machine
+import EventppVerif.Q.DispAux
+/-
+  Property C04 — dispatch reaches exactly the dispatched event's listeners, arguments intact
+  (machine part).
+
+  Model: Q/Machine.lean.  A dispatcher is a world of per-event listener lists `c.lists key`
+  (Spec-level callback lists, `SList`; that the pointer lists of the library behave like them is
+  C01/C02).  `dispatch key arg` runs the filter phase (C12) and then iterates over a snapshot of
+  `c.lists key`, skipping entries that are no longer present.
+
+  * `C04_route_flat`: without filters and with listeners that return immediately, `dispatch key arg`
+    calls exactly the entries of `c.lists key`, in order, once each, each with `arg`; no list of
+    any event changes.
+  * `C04_ops_*`: every listener-management command is the `SList` operation on that event's list and
+    leaves the lists of all other events unchanged.
+  * `C04_reentrant_route*`: for arbitrary (re-entrant) behaviours, every listener call a dispatch of
+    `key` makes is of a handle that is in `c.lists key` at the time of the call.
+-/
+namespace Evp.Q
+open Evp QCfg
+
+/-- **C04 (routing).**  No filters; the listeners return immediately.  From any configuration that
+    is about to execute `dispatch key arg` there is a number of steps after which the program
+    continues on the same stack and the trace has gained exactly one call per entry of
+    `c.lists key` — same order, each with handle and callback of the entry and with the argument
+    `arg` unchanged — followed by the result of the command; the listeners of every other event
+    are neither called nor affected: `lists k'` is unchanged for every `k'`. -/
+theorem C04_route_flat (b : QBeh) (verdict : Cb → Nat → Bool) (hb : Flat b verdict) (c : QCfg)
+    (key arg : Nat) (k : QRes → QProg) (rest : List QFrame) (hf : c.filters = [])
+    (hst : c.stack = .prog (.op (.dispatch key arg) k) :: rest) :
+    ∃ n, (runN b n c).1.stack = .prog (k .unit) :: rest ∧
+      (∀ k', (runN b n c).1.lists k' = c.lists k') ∧
+      (runN b n c).1.queue = c.queue ∧
+      (runN b n c).1.trace =
+        .res .unit ::
+          ((c.lists key).map (fun e => QEv.call ⟨.listener, key, e.id, e.cb, arg⟩)).reverse
+            ++ c.trace := by
+  obtain ⟨n, hn⟩ := dispatch_flat hb c key arg k rest hst
+  refine ⟨n, by rw [hn], fun k' => by rw [hn], by rw [hn], ?_⟩
+  rw [hn, hf]
+  simp [dispatchCalls, callsFrom, listenerCalls, List.map_map, Function.comp_def]
+
+/-! ### listener management -/
+
+/-- `appendListener(key, cb)` appends to the list of `key` (fresh handle `nextId`, returned) and
+    leaves every other event's list unchanged. -/
+theorem C04_ops_listen (c : QCfg) (key : Nat) (cb : Cb) :
+    (c.apply (.listen key cb)).1.lists key = (c.lists key).append c.nextId cb ∧
+    (∀ k, k ≠ key → (c.apply (.listen key cb)).1.lists k = c.lists k) ∧
+    (c.apply (.listen key cb)).2 = .handle c.nextId :=
+  apply_listen c key cb
+
+/-- `prependListener(key, cb)` -/
+theorem C04_ops_listenFront (c : QCfg) (key : Nat) (cb : Cb) :
+    (c.apply (.listenFront key cb)).1.lists key = (c.lists key).prepend c.nextId cb ∧
+    (∀ k, k ≠ key → (c.apply (.listenFront key cb)).1.lists k = c.lists k) ∧
+    (c.apply (.listenFront key cb)).2 = .handle c.nextId :=
+  apply_listenFront c key cb
+
+/-- `insertListener(key, cb, before)`, for a handle that is not a listener of another event
+    (`foreign`: outside every property, skipped by machine and harness alike) -/
+theorem C04_ops_listenBefore (c : QCfg) (key : Nat) (cb : Cb) (h : Hd)
+    (hf : c.foreign key h = false) :
+    (c.apply (.listenBefore key cb h)).1.lists key = (c.lists key).insert c.nextId cb h ∧
+    (∀ k, k ≠ key → (c.apply (.listenBefore key cb h)).1.lists k = c.lists k) ∧
+    (c.apply (.listenBefore key cb h)).2 = .handle c.nextId :=
+  apply_listenBefore c key cb h hf
+
+/-- `removeListener(key, handle)`: `SList.remove` on the list of `key`; the result is `true` iff the
+    handle was in that list; every other event's list is unchanged. -/
+theorem C04_ops_unlisten (c : QCfg) (key : Nat) (h : Hd) (hf : c.foreign key h = false) :
+    (c.apply (.unlisten key h)).1.lists key = ((c.lists key).remove h).1 ∧
+    (∀ k, k ≠ key → (c.apply (.unlisten key h)).1.lists k = c.lists k) ∧
+    (c.apply (.unlisten key h)).2 = .bool ((c.lists key).present h) :=
+  apply_unlisten c key h hf
+
+/-- `hasAnyListener(key)` changes nothing and reports whether the list of `key` is non-empty -/
+theorem C04_ops_hasAny (c : QCfg) (key : Nat) :
+    (c.apply (.hasAny key)).1 = c ∧ (c.apply (.hasAny key)).2 = .bool (!(c.lists key).isEmpty) :=
+  apply_hasAny c key
+
+/-- every other command executed by `apply` (queue and filter commands) leaves all listener lists
+    unchanged -/
+theorem C04_ops_other (c : QCfg) (cmd : QCmd)
+    (h : ∀ key cb, cmd ≠ .listen key cb) (h2 : ∀ key cb, cmd ≠ .listenFront key cb)
+    (h3 : ∀ key cb hd, cmd ≠ .listenBefore key cb hd) (h4 : ∀ key hd, cmd ≠ .unlisten key hd) :
+    (c.apply cmd).1.lists = c.lists :=
+  apply_lists_other c cmd h h2 h3 h4
+
+/-! ### arbitrary behaviours -/
+
+/-- **C04 (routing, re-entrant).**  Whatever the listeners do (add, remove, dispatch, process, to any
+    depth): if continuing the dispatch of `key` records a call, it is a listener call for `key`
+    with the dispatch's argument, of an entry of the snapshot whose handle is in `c.lists key` *now*.
+    Listeners of other events (their handles are not in `c.lists key`) and removed listeners are
+    never called.  (The snapshot entry is identified by its handle; handles identify listeners.) -/
+theorem C04_reentrant_route (b : QBeh) (c : QCfg) (key arg : Nat) (snap : List Entry)
+    (below : List QFrame) (call : QCall)
+    (h : (nextListener b c key arg snap below).trace = .call call :: c.trace) :
+    call.kind = .listener ∧ call.key = key ∧ call.arg = arg ∧
+    (c.lists key).present call.h = true ∧ (⟨call.h, call.cb⟩ : Entry) ∈ snap := by
+  rcases nextListener_trace b c key arg below snap with h' | ⟨e, he, hp, h'⟩
+  · rw [h'] at h; exact (cons_ne_self' _ _ h).elim
+  · rw [h'] at h
+    cases h
+    exact ⟨rfl, rfl, rfl, hp, he⟩
+
+/-- … and it is either that call or the end of the dispatch: `nextListener` never records anything
+    else. -/
+theorem C04_reentrant_route_total (b : QBeh) (c : QCfg) (key arg : Nat) (snap : List Entry)
+    (below : List QFrame) :
+    (nextListener b c key arg snap below).trace = c.trace ∨
+    ∃ e ∈ snap, (c.lists key).present e.id = true ∧
+      (nextListener b c key arg snap below).trace = .call ⟨.listener, key, e.id, e.cb, arg⟩ :: c.trace :=
+  nextListener_trace b c key arg below snap
+
+/-- **C04 (routing, every step of every run).**  Every listener call recorded by any step of the
+    machine, at any nesting depth, is of a handle that is in the list of the call's own event at
+    that moment. -/
+theorem C04_calls_are_current (b : QBeh) (c c' : QCfg) (hs : step b c = some c') :
+    ∃ new, c'.trace = new ++ c.trace ∧
+      ∀ call, QEv.call call ∈ new → call.kind = .listener →
+        (c.lists call.key).present call.h = true := by
+  obtain ⟨new, hn, hc⟩ := step_NC hs
+  refine ⟨new, hn, ?_⟩
+  intro call hm hk
+  have := hc call hm
+  unfold CallOK at this
+  rw [hk] at this
+  exact this
+
+/-! ### non-vacuity -/
+
+namespace C04ex
+
+def seqP : List QCmd → QProg
+  | [] => .ret true
+  | c :: r => .op c (fun _ => seqP r)
+
+def beh : QBeh where
+  run := fun _ _ => .ret true
+  rewrite := fun _ a => a
+
+theorem beh_flat : Flat beh (fun _ _ => true) := ⟨fun _ _ _ => rfl, fun _ _ _ => ⟨true, rfl⟩⟩
+
+def calls (tr : List QEv) : List QCall := tr.reverse.filterMap (fun | .call c => some c | _ => none)
+
+def c0 : QCfg :=
+  { nkeys := 3, stack := [.prog (seqP [.listen 1 10, .listen 2 20, .listenFront 1 11, .listen 1 12,
+                                       .dispatch 1 5, .dispatch 2 6, .dispatch 0 7])] }
+
+/-- event 1 has listeners 11, 10, 12 (in list order), event 2 has listener 20, event 0 none:
+    each dispatch reaches exactly its event's listeners, in order, with its argument -/
+example : calls (runN beh 40 c0).1.trace =
+    [⟨.listener, 1, 2, 11, 5⟩, ⟨.listener, 1, 0, 10, 5⟩, ⟨.listener, 1, 3, 12, 5⟩,
+     ⟨.listener, 2, 1, 20, 6⟩] ∧ (runN beh 40 c0).2 = true := by
+  decide +kernel
+
+/-- the hypotheses of `C04_route_flat` hold at step 4 of this run -/
+example : ∃ k rest, (runN beh 4 c0).1.stack = .prog (.op (.dispatch 1 5) k) :: rest ∧
+    (runN beh 4 c0).1.filters = [] ∧ (runN beh 4 c0).1.lists 1 = [⟨2, 11⟩, ⟨0, 10⟩, ⟨3, 12⟩] :=
+  ⟨_, _, rfl, rfl, by decide +kernel⟩
+
+/-- a listener that removes the next listener of its own event and adds one to another event while
+    being dispatched: the removed one is not called, the other event's listener is not called by
+    this dispatch (re-entrant routing) -/
+def beh2 : QBeh where
+  run := fun call nth =>
+    if call.cb = 10 ∧ nth = 0 then .op (.unlisten 1 1) (fun _ => .op (.listen 2 30) (fun _ => .ret true))
+    else .ret true
+  rewrite := fun _ a => a
+
+example : calls (runN beh2 40
+      { nkeys := 3, stack := [.prog (seqP [.listen 1 10, .listen 1 11, .listen 1 12,
+                                           .dispatch 1 5, .dispatch 2 6])] }).1.trace =
+    [⟨.listener, 1, 0, 10, 5⟩, ⟨.listener, 1, 2, 12, 5⟩, ⟨.listener, 2, 3, 30, 6⟩] := by
+  decide +kernel
+
+end C04ex
+end Evp.Q
